@@ -30,7 +30,7 @@ struct OsPipe { std::string data; bool w_open, r_open, child_w; int r_fd, w_fd; 
 struct OsProc {
   int pid; bool console; int pipe; int ref;             // index into g_ref
   std::vector<long> snap; bool missing_input; int flags; long cmdh;
-  bool will_fail; std::string to_write; bool split;                     // output still to be written; written in two parts or at once
+  bool will_fail; bool fail_event_pending = false; std::string to_write; bool split;                     // output still to be written; written in two parts or at once
   bool exited, reaped, lingering; int wstatus; bool own_pgroup, stdin_null, out_on_pipe; int killed_by; long stdout_len_at_start;
 };
 struct OsWorld {
@@ -81,7 +81,7 @@ static void os_proc_exit(OsProc& p) {
     int code = 1; if (g_os_opts.sym_exit_code) code = sym_exit_code();
     bool by_signal = g_os_opts.sym_exit_code && verif_bool("command_dies_by_signal");
     if (by_signal) { int sig = verif_bool("signal_is_segv") ? SIGSEGV : SIGKILL; p.wstatus = sig; code = 128 + sig; } else p.wstatus = code << 8;
-    if (g_sink) { g_sink->failed.push_back(ord); g_sink->exit_codes.push_back(code); } os_sink_event("fail " + e.outs[0]);
+    if (g_sink) { g_sink->failed.push_back(ord); g_sink->exit_codes.push_back(code); } p.fail_event_pending = true;      // ("fail X" is logged when ninja collects the status: until then it cannot know, and may rightly start more work)
     if (g_os_opts.failed_touch && verif_bool("failed_command_touched_outputs")) for (size_t k = 0; k < e.outs.size(); k++) g_tree->write(e.outs[k], -7 - (long)k);
     return;
   }
@@ -260,7 +260,8 @@ pid_t OSFN(waitpid)(pid_t pid, int* status, int options) {
     if (p->lingering && verif_bool("interrupted_command_touched_outputs")) { const RefEdge& e = g_ref[p->ref]; for (size_t k = 0; k < e.outs.size(); k++) g_tree->write(e.outs[k], -13 - (long)k); os_sink_event("touched " + e.outs[0]); }
     os_proc_exit(*p);
   }
-  p->reaped = true; if (status) *status = p->wstatus; return pid;
+  p->reaped = true; if (p->fail_event_pending) { p->fail_event_pending = false; os_sink_event("fail " + g_ref[p->ref].outs[0]); }
+  if (status) *status = p->wstatus; return pid;
 }
 int OSFN(kill)(pid_t pid, int sig) {
   OsProc* p = os_proc(pid < 0 ? -pid : pid);
